@@ -279,22 +279,44 @@ class TranslateJSON(Harness):
     alphabet = "ascii"
     must_reach = ("json",)
     functions = ("pvl.pvl_translate.JSONWriter.dump",)
-    bounds = "JSON output of three concrete modules (json is C level: nothing symbolic)"
+    bounds = ("JSON output of six concrete labels (nesting, repeated names at the top level and inside blocks, a block "
+              "named like a parameter, nested sequences, an empty value): the document, read with repeated keys kept, "
+              "is the label's nested list of (name, value) pairs (json is C level: nothing symbolic)")
 
     def inputs(self, ctx):
         return {}
 
+    TEXTS = (
+        "a = 1\nb = (1, 2)\nEND",
+        "GROUP = g\n x = \"s\"\n OBJECT = o\n  y = 2.5\n END_OBJECT\nEND_GROUP\nz = NULL\nEND",
+        "t = TRUE\nf = FALSE\nEND",
+        # names that occur more than once, at the top level and inside blocks; a block name equal to a parameter name
+        "Note = \"one\"\nOBJECT = Table\n k = 1\n k = 2\nEND_OBJECT\nNote = \"two\"\nOBJECT = Table\n k = 3\nEND_OBJECT\nTable = 7\nEND",
+        "a = (1, (2, 3), \"x y\")\nGROUP = g\n GROUP = g\n  a = -1.5e-05\n END_GROUP\n a = 16#FF#\nEND_GROUP\nEND",
+        "e =\nf = 2\nEND",
+    )
+
+    @staticmethod
+    def pairs(v):
+        """the label's nested (name, value) pairs, in order, repeated names kept"""
+        if hasattr(v, "items"):
+            return ["object"] + [[k, TranslateJSON.pairs(x)] for k, x in v.items()]
+        if isinstance(v, list):
+            return [TranslateJSON.pairs(x) for x in v]
+        return v
+
     def prop_fn(self, L, inp):
         tool = L.tool("pvl_translate")
         ok = True
-        for text, exp in (("a = 1\nb = (1, 2)\nEND", {"a": 1, "b": [1, 2]}),
-                          ("GROUP = g\n x = \"s\"\n OBJECT = o\n  y = 2.5\n END_OBJECT\nEND_GROUP\nz = NULL\nEND",
-                           {"g": {"x": "s", "o": {"y": 2.5}}, "z": None}),
-                          ("t = TRUE\nf = FALSE\nEND", {"t": True, "f": False})):
+        got = []
+        for text in self.TEXTS:
             w = WText()
-            tool.formats["JSON"].dump(L.pvl.loads(text), w)
-            ok = ok and json.loads("".join(w.got)) == exp
-        return Outcome("json", ok, None)
+            m = L.pvl.loads(text)
+            tool.formats["JSON"].dump(m, w)
+            doc = json.loads("".join(w.got), object_pairs_hook=lambda ps: ["object"] + [[k, v] for k, v in ps])
+            got.append(doc)
+            ok = ok and doc == self.pairs(m)
+        return Outcome("json", ok, {"documents": got})
 
 
 def obligations(tier):
